@@ -237,6 +237,7 @@ func c11Run(c *fw.Ctx, content string, depthCap int) {
 	c.Count("transitions", transitions)
 	if capped {
 		c.Count("depth_capped_contents", 1)
+		c.Count("capped", 1)
 		c.Outcome("graph-capped")
 	} else {
 		c.Outcome(fmt.Sprintf("graph-closed-states=%d", states))
